@@ -140,6 +140,9 @@ def _parse(out, names):
             res[cur]['status'] = 'pass'
         elif 'VERIFICATION:- FAILED' in ln:
             res[cur]['status'] = 'fail'
+        m = re.search(r'(\d+) of (\d+) cover properties satisfied', ln)
+        if m:
+            res[cur]['covers'] = [int(m.group(1)), int(m.group(2))]
         m = re.search(r'Verification Time: ([\d.]+)s', ln)
         if m:
             res[cur]['time_s'] = float(m.group(1))
@@ -224,6 +227,13 @@ def run_units(unit_dicts, tup, pid=None):
             r.obligations.append(ob)
             r.solver_s = getattr(r, 'solver_s', 0.0) + p.get('time_s', 0.0)
             r.checks = getattr(r, 'checks', 0) + p.get('checks', 0)
+            cv = p.get('covers')
+            r.probes = r.probes or {'expected': 0, 'failed_as_expected': 0, 'vacuous': []}
+            if cv:
+                r.probes['expected'] += cv[1]
+                r.probes['failed_as_expected'] += cv[0]
+                if cv[0] != cv[1]:
+                    r.probes['vacuous'].append('%s: cover unsatisfied' % h['name'])
             if st == 'pass':
                 continue
             if st == 'fail':
